@@ -116,6 +116,20 @@ pub fn open(kind: Kind, n: usize) -> Result<Backend, String> {
             if !st.status.success() {
                 return Err(format!("git init --bare failed: {}", String::from_utf8_lossy(&st.stderr)));
             }
+            if kind == Kind::GitRemoteEarlyClones {
+                // every clone exists before anything was pushed (as if all replicas had been set up
+                // at the same time): each will create its own meta / salt when it is opened
+                for i in 0..n {
+                    let c = d.path().join(format!("clone{i}"));
+                    let st = std::process::Command::new("git").args(["clone", "-q"]).arg(&bare).arg(&c).output().map_err(|e| format!("git clone: {e}"))?;
+                    if !st.status.success() {
+                        return Err(format!("git clone failed: {}", String::from_utf8_lossy(&st.stderr)));
+                    }
+                    for (k, v) in [("user.email", "taskchampion@local"), ("user.name", "taskchampion")] {
+                        let _ = std::process::Command::new("git").current_dir(&c).args(["config", k, v]).output();
+                    }
+                }
+            }
             let mut hs: Vec<Box<dyn Server>> = vec![];
             for i in 0..n {
                 let cfg = ServerConfig::Git { local_path: d.path().join(format!("clone{i}")), branch: "main".into(), remote: Some(bare.to_str().unwrap().to_string()), local_only: false, encryption_secret: SECRET.to_vec(), git_path: None };
@@ -156,6 +170,22 @@ pub fn open(kind: Kind, n: usize) -> Result<Backend, String> {
             Ok(Backend { kind, handles: hs, rt: Some(rt), _dir: None, _http: Some(srv), world: None, dir: None })
         }
     }
+}
+
+/// For git configurations: the commit log and the salt in `meta` of every clone and of the remote
+/// (diagnostics attached to error reports).
+fn git_debug_state(b: &Backend) -> String {
+    let Some(dir) = &b.dir else { return String::new() };
+    let mut out = String::from("; git state:");
+    let Ok(rd) = std::fs::read_dir(dir) else { return out };
+    let mut names: Vec<_> = rd.flatten().map(|e| e.path()).collect();
+    names.sort();
+    for p in names {
+        let log = std::process::Command::new("git").current_dir(&p).args(["log", "--format=%h:%s", "-6", "main"]).output().map(|o| String::from_utf8_lossy(&o.stdout).replace('\n', "|")).unwrap_or_default();
+        let salt = std::fs::read_to_string(p.join("meta")).ok().and_then(|m| serde_json::from_str::<serde_json::Value>(&m).ok()).and_then(|v| v["salt"].as_str().map(|s| s[..8.min(s.len())].to_string())).unwrap_or_default();
+        out.push_str(&format!(" [{} salt={salt} log={log}]", p.file_name().unwrap().to_string_lossy()));
+    }
+    out
 }
 
 #[derive(Default)]
@@ -291,7 +321,8 @@ fn calls_case(kind: Kind, i: u64, seed: u64, n_calls: usize, out: &mut CaseOut) 
             let want = m.child_of.get(&parent);
             match (res, want) {
                 (Err(e), _) => {
-                    out.violate(sig("get_child_version", "error"), format!("get_child_version({}) failed: {e:#}; trail {trail:?}", model::su(parent)), replay);
+                    let dbg = git_debug_state(&b);
+                    out.violate(sig("get_child_version", "error"), format!("get_child_version({}) failed: {e:#}; trail {trail:?}{dbg}", model::su(parent)), replay);
                     return;
                 }
                 (Ok(GetVersionResult::NoSuchVersion), None) => out.count("no_such_version_answers", 1),
